@@ -126,3 +126,41 @@ def keep_statements(body, keep, capture_calls=(), inputs=()):
         elif isinstance(st, ast.Assign) and len(st.targets) == 1 and isinstance(st.targets[0], ast.Subscript) and ast.unparse(st.targets[0].value) in subscripts:
             kept.append(("capture", st.value))          # d[k] = v  is the same table entry as  d.update({k: v})
     return kept
+
+
+def loop_parts(tree, qualname, case_value=None, nth=0):
+    """The nth `while` loop of function `qualname` (inside the `case <case_value>:` arm of a match statement when
+    case_value is given) together with the statements that precede and follow it in its block:
+    -> (pre statements, while node, post statements).
+    Nothing is dropped: the three parts are the whole block.  The loop must have no else clause and its body no
+    break / continue / return / nested function, and the block must end in a single `return <expr>` right after the loop;
+    anything else is a SliceMismatch (the unit is then UNDECIDED)."""
+    fn = find_function(tree, qualname)
+    blocks = []
+    if case_value is not None:
+        for n in ast.walk(fn):
+            if isinstance(n, ast.Match):
+                for c in n.cases:
+                    if isinstance(c.pattern, ast.MatchValue) and isinstance(c.pattern.value, ast.Constant) and c.pattern.value.value == case_value:
+                        blocks.append(c.body)
+    else:
+        blocks = [n.body for n in ast.walk(fn) if hasattr(n, "body") and isinstance(n.body, list)]
+    hits = []
+    for b in blocks:
+        for i, st in enumerate(b):
+            if isinstance(st, ast.While):
+                hits.append((b[:i], st, b[i + 1:]))
+    if len(hits) <= nth:
+        raise SliceMismatch("no while loop (occurrence %d) in %s%s" % (nth, qualname, "" if case_value is None else " case %r" % (case_value,)))
+    pre, loop, post = hits[nth]
+    if loop.orelse:
+        raise SliceMismatch("while loop with an else clause")
+    for n in ast.walk(ast.Module(loop.body, [])):
+        if isinstance(n, (ast.Break, ast.Continue, ast.Return, ast.FunctionDef, ast.Lambda, ast.Yield, ast.While, ast.For)):
+            raise SliceMismatch("loop body contains %s" % type(n).__name__)
+    if len(post) != 1 or not isinstance(post[0], ast.Return) or post[0].value is None:
+        raise SliceMismatch("the loop is not followed by a single `return <expr>`")
+    for st in pre:
+        if not isinstance(st, (ast.Assign, ast.AnnAssign, ast.AugAssign)):
+            raise SliceMismatch("statement before the loop is not an assignment: %s" % type(st).__name__)
+    return pre, loop, post
